@@ -3,6 +3,7 @@ package keeper
 import (
 	"bytes"
 	"math"
+	"sort"
 
 	errorsmod "cosmossdk.io/errors"
 	storetypes "cosmossdk.io/store/types"
@@ -87,12 +88,16 @@ func (k Keeper) getBalances(ctx sdk.Context) []types.Owner {
 		ownerMap[address][denomID][mtID] = amount
 	}
 
+	// iterate in key order: the exported genesis must not depend on map iteration order
 	var owners []types.Owner
-	for addr, denomMap := range ownerMap {
+	for _, addr := range sortedKeys(ownerMap) {
+		denomMap := ownerMap[addr]
 		var denomBalances []types.DenomBalance
-		for denomID, mtMap := range denomMap {
+		for _, denomID := range sortedKeys(denomMap) {
+			mtMap := denomMap[denomID]
 			var balances []types.Balance
-			for mtID, amount := range mtMap {
+			for _, mtID := range sortedKeys(mtMap) {
+				amount := mtMap[mtID]
 				balance := types.NewBalance(mtID, amount)
 				balances = append(balances, balance)
 			}
@@ -105,6 +110,16 @@ func (k Keeper) getBalances(ctx sdk.Context) []types.Owner {
 	}
 
 	return owners
+}
+
+// sortedKeys returns the keys of m in ascending order
+func sortedKeys[V any](m map[string]V) []string {
+	keys := make([]string, 0, len(m))
+	for k := range m {
+		keys = append(keys, k)
+	}
+	sort.Strings(keys)
+	return keys
 }
 
 // Transfer transfers mts
